@@ -18,6 +18,7 @@ func TestSim(t *testing.T) {
 	simnode.InitLogging()
 	simcore.Main(t, "C01", []simcore.Scenario{
 		{Name: "measure", Weight: 4, Run: runMeasure},
+		{Name: "stream", Weight: 3, Run: runStream},
 	})
 }
 
@@ -145,5 +146,134 @@ func checkMeasure(e *simcore.Env, tp *simcore.Tape, n *simnode.Node, m *wl.Measu
 	e.Event("%s: query [%d,%d] -> %d points", where, lo, hi, len(resp.GetDataPoints()))
 	if cls, msg := m.Mismatch(resp.GetDataPoints(), p, keep); cls != "" {
 		e.Fail("exact-read", cls, "%s (measure, range [%d,%d]): %s", where, lo, hi, msg)
+	}
+}
+
+func runStream(e *simcore.Env, tp *simcore.Tape) {
+	synctest.Test(e.T, func(*testing.T) {
+		s := wl.GenStreamSchema(tp, wl.SchemaOpts{})
+		repo := simmeta.New()
+		s.Install(repo)
+		flush := []string{"1s", "5s", "30s"}[tp.Choose(3)]
+		flags := []string{"--stream-flush-timeout=" + flush}
+		if tp.Bool(1, 3) {
+			flags = append(flags, fmt.Sprintf("--stream-max-merge-parts=%d", tp.Range(2, 8)))
+		}
+		n, err := simnode.Boot(repo, e.Dir, simnode.Engines{Stream: true}, flags)
+		if err != nil {
+			e.Fail("boot", "boot-failed", "boot: %v", err)
+			return
+		}
+		defer n.Stop()
+		m := wl.NewStreamModel(s)
+		m.Tolerate = func(class string) bool {
+			if os.Getenv("VERIF_SURVEY") != "" {
+				e.Probe("survey.stream." + class)
+				return true
+			}
+			return e.Known("exact-read", "stream:"+class)
+		}
+		e.Event("stream schema shards=%d tags=%v skipping=%v flush=%s", s.Shards, s.Tags, simcore.SortedKeys(s.Skipping), flush)
+		nOps := tp.Range(2, 14)
+		big := tp.Bool(1, 12)
+		msgID := uint64(1)
+		batches := 0
+		spanMs := int64([]int{1000, 3600_000, 3 * 86400_000}[tp.Choose(3)])
+		var sample []string
+		for op := 0; op < nOps && !e.Failed(); op++ {
+			time.Sleep(time.Duration(tp.Range(1, 2000)) * time.Microsecond)
+			synctest.Wait()
+			e.Step()
+			switch tp.Weighted(5, 2, 3) {
+			case 0:
+				maxRows := 400
+				if big {
+					maxRows = 9000
+				}
+				rows := m.GenBatch(tp, wl.BatchOpts{BaseMs: time.Now().UnixMilli(), SpanMs: spanMs, MaxRows: maxRows, MaxSeries: 6, NullOK: true}, batches)
+				reqs := m.ToRequests(rows, msgID)
+				msgID += uint64(len(reqs))
+				resps, werr := n.WriteStream(reqs)
+				okAll := werr == nil && len(resps) == len(reqs)
+				for _, r := range resps {
+					if r.GetStatus() != "STATUS_SUCCEED" {
+						okAll = false
+					}
+				}
+				e.Event("write batch %d elements=%d ack=%v", batches, len(rows), okAll)
+				sample = append(sample, fmt.Sprintf("write %d elements", len(rows)))
+				if !okAll {
+					e.Fail("ack", "valid-write-not-acknowledged", "a valid batch of %d elements was not acknowledged: err=%v responses=%d first=%v", len(rows), werr, len(resps), first(resps))
+					return
+				}
+				m.Ack(rows)
+				batches++
+				if len(rows) > 8192 {
+					e.Probe("reach.batch_over_block_row_limit")
+				}
+				if tp.Bool(1, 2) {
+					checkStream(e, tp, n, m, "after-ack")
+				}
+			case 1:
+				d := []time.Duration{time.Second, 6 * time.Second, 40 * time.Second, 3 * time.Minute}[tp.Choose(4)]
+				time.Sleep(d)
+				synctest.Wait()
+				e.AddSim(d)
+				e.Event("advance %s", d)
+				sample = append(sample, "advance "+d.String())
+				e.Probe("reach.clock_advanced_past_flush")
+			default:
+				checkStream(e, tp, n, m, "query")
+				sample = append(sample, "query")
+			}
+		}
+		if !e.Failed() {
+			checkStream(e, tp, n, m, "final")
+		}
+		if len(m.Rows) > 0 {
+			e.Nontrivial()
+		}
+		e.SetSample(map[string]any{"engine": "stream", "shards": s.Shards, "tags": fmt.Sprint(s.Tags), "ops": sample})
+	})
+}
+
+func first[T any](s []T) any {
+	if len(s) == 0 {
+		return nil
+	}
+	return s[0]
+}
+
+func checkStream(e *simcore.Env, tp *simcore.Tape, n *simnode.Node, m *wl.StreamModel, where string) {
+	if e.Failed() {
+		return
+	}
+	now := time.Now().UnixMilli()
+	lo, hi := now-20*86400_000, now+86400_000
+	for _, r := range m.Rows {
+		lo, hi = min(lo, r.Ts), max(hi, r.Ts)
+	}
+	p := m.S.FullProjection()
+	var keep func(*wl.SRow) bool
+	if tp.Bool(1, 3) && len(m.Rows) > 0 {
+		a := m.Rows[tp.Choose(len(m.Rows))].Ts
+		b := m.Rows[tp.Choose(len(m.Rows))].Ts
+		if a > b {
+			a, b = b, a
+		}
+		lo, hi = a, b+int64(tp.Choose(2))
+		p = m.S.GenProjection(tp)
+		l2, h2 := lo, hi
+		keep = func(r *wl.SRow) bool { return r.Ts >= l2 && r.Ts <= h2 }
+		e.Probe("reach.subrange_query")
+	}
+	resp, err := n.QueryStream(m.S.QueryRequest(lo, hi, p, 1000000))
+	if err != nil {
+		e.Fail("query", "query-error", "%s: stream query failed: %v", where, err)
+		return
+	}
+	e.Event("%s: stream query [%d,%d] -> %d elements", where, lo, hi, len(resp.GetElements()))
+	if cls, msg := m.Mismatch(resp.GetElements(), p, keep); cls != "" {
+		e.Fail("exact-read", "stream:"+cls, "%s (stream, range [%d,%d]): %s", where, lo, hi, msg)
 	}
 }
